@@ -328,6 +328,7 @@ func main() {
 			case <-cdone:
 			case <-time.After(3 * time.Second):
 				mb.Emit(ev{E: "consumer-stuck"})
+				hung++ // each such run costs seconds: a few are enough evidence
 			}
 		}
 		w.Put(map[string]any{"evs": log.Merge(), "consumer": consumer, "stringwriter": isSW, "note": fmt.Sprintf("writes=%d", nw)})
